@@ -1,7 +1,6 @@
-package syncsim
+package scsim
 
 import (
-	"runtime/debug"
 	"testing"
 
 	logger "github.com/ElrondNetwork/elrond-go-logger"
@@ -11,6 +10,5 @@ import (
 
 func TestCheck(t *testing.T) {
 	_ = logger.SetLogLevel("*:NONE")
-	debug.SetGCPercent(400) // runs are allocation-heavy (node decoding); 16 worker processes share the machine
 	simkit.Main(t, World{})
 }
